@@ -60,6 +60,8 @@ class Draws:
                 entry["items"] = seq
                 forced = rec.policy(name, None, len(seq)) if rec.policy is not None else None
                 idx = rec._next(name) if rec.script is not None else None
+                if idx is not None and rec.lenient and (idx >= len(seq) or (plist is not None and plist[idx] <= 0.0)):
+                    idx = None      # replay mode: the recorded outcome is impossible under the law the library asks for NOW - the real generator decides
                 if idx is not None:
                     res = seq[idx]
                 elif forced is not None:
